@@ -188,14 +188,11 @@ def Query.shape (q : Query) : QueryShape :=
 
 /-- per series and call: the statistics record of one bucket (`none` = no bucketing). -/
 def St.seriesStats (st : St) (q : Query) (s : Nat) (c : Call) (bucket : Option Int) : Stats :=
-  if matchPreAgg q.shape then
-    aggViaStats q.lo q.hi (st.seriesData s c.col)
-  else
-    let rows := st.view s q.lo q.hi q.filter
-    let rows := match bucket with
-      | none => rows
-      | some b => rows.filter (fun r => window q.interval r.t == b)
-    buildStats (rows.map (·.col c.col))
+  let rows := st.view s q.lo q.hi q.filter
+  let rows := match bucket with
+    | none => rows
+    | some b => rows.filter (fun r => window q.interval r.t == b)
+  answer q.shape q.lo q.hi (st.seriesData s c.col) (rows.map (·.col c.col))
 
 def dedupSorted (l : List Int) : List Int :=
   (l.mergeSort (· ≤ ·)).foldr (fun x acc => match acc with
